@@ -234,14 +234,49 @@ def isinstance_chain_violations(fi: FuncInfo):
         for nm in {x.id for x in walk_no_nested(fi.node) if isinstance(x, ast.Name)}:
             if fi.module.has_const(nm) and numeric_dict(fi.module.const_node(nm)):
                 has_numeric_map = True
+    def flag_ok(node: ast.Call) -> bool:
+        """a bool test conjoined with a flag read from a table row (`spec.rejects_bool and isinstance(v, bool)`) counts only when
+        every row of that table whose types include int / float sets the flag"""
+        par = getattr(node, "_parent", None)
+        if not (isinstance(par, ast.BoolOp) and isinstance(par.op, ast.And)):
+            return True
+        flags = [v for v in par.values if isinstance(v, ast.Attribute) and isinstance(v.value, ast.Name)]
+        if not flags:
+            return len(par.values) == 1 or all(v is node or not isinstance(v, (ast.Attribute, ast.Name)) for v in par.values)
+        from ..inline import record_fields
+
+        for fl in flags:
+            ok_rows = False
+            for nm in {x.id for x in walk_no_nested(fi.node) if isinstance(x, ast.Name)}:
+                if not fi.module.has_const(nm):
+                    continue
+                table = fi.module.const_node(nm)
+                if not isinstance(table, ast.Dict):
+                    continue
+                rows = [v for v in table.values if isinstance(v, ast.Call) and isinstance(v.func, ast.Name) and v.func.id in fi.module.classes]
+                if not rows:
+                    continue
+                fields = record_fields(fi.module.classes[rows[0].func.id].node) or []  # type: ignore[union-attr]
+                def field_value(r: ast.Call, f: str):
+                    for k in r.keywords:
+                        if k.arg == f:
+                            return k.value
+                    return r.args[fields.index(f)] if f in fields and fields.index(f) < len(r.args) else None
+                numeric_rows = [r for r in rows if any(isinstance(x, ast.Name) and x.id in ("int", "float") for a in list(r.args) + [k.value for k in r.keywords] for x in ast.walk(a))]
+                if numeric_rows and all(isinstance(field_value(r, fl.attr), ast.Constant) and field_value(r, fl.attr).value is True for r in numeric_rows):
+                    ok_rows = True
+            if not ok_rows:
+                return False
+        return True
+
     for subj, lst in tests.items():
         lst.sort(key=lambda x: x[0])
         seen_bool = False
         for line, ty, node in lst:
             parts = [p.strip() for p in ty.strip("()").replace("|", ",").split(",")]
-            if "bool" in parts:
+            if "bool" in parts and flag_ok(node):
                 seen_bool = True
-            dynamic_numeric = has_numeric_map and isinstance(node.args[1], ast.Name) and node.args[1].id not in ("str", "list", "dict", "bool", "int", "float", "tuple", "set")
+            dynamic_numeric = has_numeric_map and ((isinstance(node.args[1], ast.Name) and node.args[1].id not in ("str", "list", "dict", "bool", "int", "float", "tuple", "set")) or (isinstance(node.args[1], ast.Attribute) and isinstance(node.args[1].value, ast.Name)))
             if (any(p in ("int", "float") for p in parts) and "bool" not in parts) or dynamic_numeric:
                 # a negated test `not isinstance(v, int|float)` rejecting non-numbers also needs the bool test first
                 yield subj, node, seen_bool
